@@ -103,7 +103,7 @@ def configs(tier):
 
 
 def tasks(tier):
-    ts = [("config", k) for k in range(len(configs(tier)))] + [("en-width",), ("init-frame",)]
+    ts = [("config", k) for k in range(len(configs(tier)))] + [("en-width",), ("init-frame",), ("async-reset-domain",)]
     ts += [("rtlil", k) for k in range(len(configs(tier)))]
     ts += [("behaviour", k) for k in range(len(configs(tier)))]
     # the storage class itself (the contracts the configurations above rely on)
@@ -617,6 +617,44 @@ def check_init_frame():
     return {"task": "init-frame", "paths": 0, "solver_s": 0.0, "obligations": obs}
 
 
+def check_async_reset_domain():
+    """a memory whose ports are in a domain with an ASYNCHRONOUS reset: neither the assertion of the reset (no clock edge) nor
+    a clock edge while it is asserted changes a row or a read register beyond what the ports do -- the emitted $memrd_v2 /
+    $memwr_v2 have no reset, and the reset edge is not a clock edge"""
+    from amaranth.hdl import Module, ClockDomain, Shape
+    from amaranth.lib.memory import Memory
+    name = "async-reset-domain"
+    mem = Memory(shape=Shape(3), depth=2, init=[5, 2])
+    wp = mem.write_port(domain="sync")
+    rp = mem.read_port(domain="sync")
+    m = Module()
+    cd = ClockDomain("sync", async_reset=True)
+    m.domains += cd
+    m.submodules.mem = mem
+    d = Design(m)
+    d.register(wp.en, wp.addr, wp.data, rp.addr, rp.data, rp.en)
+    ms = d.mem(0)
+
+    def body(path):
+        d.fresh(path)
+        d.set(cd.clk, 0)
+        d.set(cd.rst, 0)
+        d.apply([], path, f"{name}::pre")
+        rows = list(ms.data)
+        rdata = d.val(rp.data)
+        d.apply([(cd.rst, 1)], path, f"{name}::rst-rise")
+        path.prove(f"{name}::reset-edge-leaves-rows", And(*[to_sint(ms.data[i]) == to_sint(rows[i]) for i in range(2)]))
+        path.prove(f"{name}::reset-edge-leaves-read-register", to_sint(d.val(rp.data)) == to_sint(rdata))
+        # a clock edge while the reset is asserted: the ports work as always
+        a, en, wa, wd, we = d.val(rp.addr), d.val(rp.en), d.val(wp.addr), d.val(wp.data), d.val(wp.en)
+        d.apply([(cd.clk, 1)], path, f"{name}::clk-in-reset")
+        cap = ite(a == 0, rows[0], rows[1])
+        path.prove(f"{name}::read-port-works-in-reset", to_sint(d.val(rp.data)) == ite(en != 0, to_sint(cap), to_sint(rdata)))
+        for i in range(2):
+            path.prove(f"{name}::write-port-works-in-reset[{i}]", to_sint(ms.data[i]) == to_sint(ite(And(we != 0, wa == i), wd, rows[i])))
+    return runner.from_exploration(name, Exploration(name, body).run())
+
+
 def run_task(task):
     if task[0] == "rtlil":
         cfg = configs("thorough")[task[1]]
@@ -631,6 +669,8 @@ def run_task(task):
         return check_en_width()
     if task[0] == "init-frame":
         return check_init_frame()
+    if task[0] == "async-reset-domain":
+        return check_async_reset_domain()
     if task[0] == "behaviour":
         cfg = configs("thorough")[task[1]]
         return check_behaviour(cfg, f"mem{task[1]}{cfg!r}".replace(" ", ""))
